@@ -978,7 +978,7 @@ func (e *Engine) evalLoopClauses(st *State, fr *Frame, cls []Clause, iterKey str
 		if st.entry != nil {
 			pre = st.entry.clone()
 		}
-		env := &rEnv{e: e, pre: pre, post: st, vars: copyVars(vars), typs: typs, specs: e.contracts.specs, iterKey: iterKey}
+		env := &rEnv{e: e, pre: pre, post: st, vars: copyVars(vars), typs: typs, specs: e.contracts.specs, iterKey: iterKey, invClause: cl.Kind == "invariant"}
 		if iterKey != "" {
 			if h, ok := st.loopHead[iterKey]; ok {
 				env.head = h.clone()
